@@ -22,6 +22,27 @@ def run_property(prop: str, tier: str, replay: dict | None = None) -> int:
         ctx = Ctx(prop, tier, repo, prog)
         mod = importlib.import_module(f"sa.props.{prop.lower()}")
         mod.run(ctx)
+        if tier == "thorough" and replay is None and not os.environ.get("VERIF_NO_EVIDENCE"):
+            # checker self-test on scratch copies of the *current* tree: every confirmed rule instance must fire on its
+            # mutant and stay silent on behaviour-preserving refactors. Informational: it never changes the verdict.
+            try:
+                from .selftest.run import selftest
+
+                st = selftest([prop])
+                ctx.note("selftest", {
+                    "mutants_run": st["mutants"]["run"], "mutants_detected": st["mutants"]["detected"],
+                    "mutants_missed": [m["id"] for m in st["mutants"]["missed"]], "mutants_skipped": st["mutants"]["skipped"],
+                    "benign_run": st["benign"]["run"], "benign_silent": st["benign"]["silent"],
+                    "benign_alarms": [b["id"] for b in st["benign"]["alarms"]], "benign_skipped": st["benign"]["skipped"],
+                })
+                print(f"selftest {prop}: mutants detected {st['mutants']['detected']}/{st['mutants']['run']}, "
+                      f"benign silent {st['benign']['silent']}/{st['benign']['run']}")
+                for m in st["mutants"]["missed"]:
+                    print(f"SELFTEST-WARNING property={prop} mutant {m['id']} was not reported")
+                for b in st["benign"]["alarms"]:
+                    print(f"SELFTEST-WARNING property={prop} benign refactor {b['id']} changed the verdict")
+            except Exception as e:  # noqa: BLE001
+                print(f"SELFTEST-WARNING property={prop} self-test could not run: {e}")
         return finish(ctx, mod.EXPLANATION, replay)
     except AnalysisError as e:
         print(f"ANALYSIS-ERROR property={prop} {e}")
